@@ -759,8 +759,10 @@ impl Blockchain {
     }
 
     async fn add_block_transactions_back(&mut self, mempool: &mut Mempool, block: &mut Block) {
-        let wallet = mempool.wallet_lock.read().await;
-        let public_key = wallet.public_key;
+        let public_key = {
+            let wallet = mempool.wallet_lock.read().await;
+            wallet.public_key
+        };
         if block.creator == public_key {
             let transactions = &mut block.transactions;
             let prev_count = transactions.len();
@@ -782,7 +784,9 @@ impl Blockchain {
                 (prev_count - transactions.len())
             );
             for tx in transactions {
-                mempool.transactions.insert(tx.signature, tx);
+                // goes through the pool's insertion point so that inputs are reserved and
+                // a transaction conflicting with a pooled one is not added
+                mempool.add_transaction(tx).await;
             }
             mempool.new_tx_added = true;
         }
